@@ -90,6 +90,12 @@ def run(ctx):
             (dict(hosts=["10.0.0.1"], rounds=4, triggers=["drop+close", "zc-same", "ensure"], behaviours=["ok"], prelude=["ok|10.0.0.1|ok"], preemptive_triggers=False), 2),
             # bursts of nudges while the connector sits in its back-off, then close / shutdown at every later point
             (dict(hosts=["10.0.0.1"], rounds=3, triggers=["double-nudge", "close"], prelude=["refuse"], behaviours=["ok"], preemptive_triggers=False), 3),
+            # a damaged pairing record: the secure session cannot be set up on the controller's side, attempt after attempt
+            (dict(hosts=["10.0.0.1"], rounds=4, triggers=["zc-same", "ensure", "close", "drop"], behaviours=["ok", "mute"], damage=("AccessoryLTPK", "odd"), preemptive_triggers=False), 2),
+            (dict(hosts=["10.0.0.1"], rounds=4, triggers=["zc-same", "close"], behaviours=["ok"], damage=("iOSDeviceLTSK", "nonhex"), preemptive_triggers=False), 1),
+            (dict(hosts=["10.0.0.1"], rounds=4, triggers=["zc-same", "close"], behaviours=["ok"], damage=("iOSPairingId", "missing"), preemptive_triggers=False), 1),
+            # subscribed and connected, then closed / shut down against a peer that resets, closes or ignores whatever close() still sends
+            (dict(hosts=["10.0.0.1"], rounds=4, subscriptions=True, triggers=["close", "shutdown", "close+rst", "shutdown+rst", "drop+close", "zc-same"], behaviours=["ok", "ok-reset-on-unsubscribe", "ok-close-on-unsubscribe", "ok-mute-on-unsubscribe"], preemptive_triggers=False), 2),
             # shut down (from connected / from retrying): announcements and callers keep arriving afterwards
             (dict(hosts=["10.0.0.1"], rounds=4, triggers=trig, prelude=["ok|10.0.0.1|ok", "shutdown"]), 2),
             (dict(hosts=["10.0.0.1"], rounds=4, triggers=trig, prelude=["refuse", "shutdown"]), 2),
@@ -108,6 +114,9 @@ def run(ctx):
             (dict(hosts=["10.0.0.1"], rounds=5, triggers=trig, prelude=["refuse", "shutdown"]), 3),
             (dict(hosts=["10.0.0.1"], rounds=4, triggers=trig, prelude=["ok|10.0.0.1|ok", "close", "shutdown"]), 3),
             (dict(hosts=["10.0.0.1"], rounds=4, triggers=["double-nudge", "close", "shutdown", "drop"], prelude=["refuse"], behaviours=["ok", "auth-error"]), 3),
+            (dict(hosts=["10.0.0.1", "10.0.0.2"], rounds=5, triggers=["zc-same", "ensure", "close", "shutdown", "drop"], behaviours=["ok", "mute", "wrong-id"], damage=("AccessoryLTPK", "short")), 2),
+            (dict(hosts=["10.0.0.1"], rounds=5, triggers=["zc-same", "ensure", "close"], behaviours=["ok"], damage=("AccessoryLTPK", "missing")), 2),
+            (dict(hosts=["10.0.0.1"], rounds=5, subscriptions=True, triggers=["close", "shutdown", "close+rst", "shutdown+rst", "drop+close", "zc-same", "ensure"], behaviours=["ok", "ok-reset-on-unsubscribe", "ok-close-on-unsubscribe", "ok-mute-on-unsubscribe", "auth-error"], preemptive_triggers=False), 3),
         ]
     work = plan(ctx, configs)
     ctx.bounds.update(configs=[dict(hosts=c["hosts"], rounds=c["rounds"], deviations=d) for c, d in configs])
